@@ -434,7 +434,13 @@ theorem insert_loop1_eq (position fuel : Nat) (s : PosPQ) (acc : List Nat)
   | succ fuel ih =>
     by_cases hp : position > acc.length
     · obtain ⟨k, hk⟩ : ∃ k, position - acc.length = k + 1 := ⟨position - acc.length - 1, by omega⟩
-      simp only [pv_lt_fun, Gen.PosPQ.insert_loop1, hp, if_true, popleft_eq, hk, PosPQ.promote]
+      -- the loop test may be written `position > len`, `len < position`, `not len >= position`, …
+      have hp1 : acc.length < position := hp
+      have hp2 : ¬ position ≤ acc.length := by omega
+      have hp3 : acc.length ≠ position := by omega
+      have hp4 : ¬ position = acc.length := by omega
+      simp only [pv_lt_fun, Gen.PosPQ.insert_loop1, hp, hp1, hp2, hp3, hp4, ge_iff_le, gt_iff_lt, not_true_eq_false,
+        not_false_eq_true, Decidable.not_not, if_true, if_false, popleft_eq, hk, PosPQ.promote]
       cases hpop : PosPQ.popleft H s draw with
       | none =>
         have : acc.length ≠ position := by omega
